@@ -26,7 +26,31 @@ let show_sw (s, w) = "(" ^ show_bytes s ^ " " ^ show_list show_bytes w ^ ")"
 let rec take_inputs n toks = if n = 0 then [] else match toks with
   | k :: m :: keys :: h :: s :: w :: r -> ((puzzle_of k m keys h, arg_bytes s), arg_list arg_bytes w) :: take_inputs (n - 1) r
   | _ -> failwith "sign_tx inputs"
+(* keychain histories: kid-level oracles answered by harness/c05.py *)
+let o_kfp (kid : byte list) : byte list = oracle "c05_kfp" kid
+let o_derive (kid : byte list) (path : byte list) : byte list = oracle "c05_derive" (be_bytes 1 (List.length kid) @ kid @ path)
+let rec take_kops n toks = if n = 0 then [] else match toks with
+  | "P" :: kid :: paths :: r -> KAddPaths (arg_bytes kid, arg_list arg_bytes paths) :: take_kops (n - 1) r
+  | "K" :: kids :: path :: r -> KAddKeysPath (arg_list arg_bytes kids, arg_bytes path) :: take_kops (n - 1) r
+  | "S" :: kid :: r -> KAddSecret (arg_bytes kid) :: take_kops (n - 1) r
+  | "2" :: s :: r -> KAddP2s (arg_bytes s) :: take_kops (n - 1) r
+  | "G" :: h :: r -> KGet (arg_bytes h) :: take_kops (n - 1) r
+  | "C" :: r -> KClear :: take_kops (n - 1) r
+  | _ -> failwith "kc_run ops"
+let show_kres = function
+  | KScript s -> "(i0 " ^ show_bytes s ^ ")"
+  | KEntry (se, c) -> "(i1 " ^ show_bytes se ^ " " ^ show_bool c ^ ")"
+  | KNone -> "N"
 let dispatch f args = match f, args with
+  | "kc_run", n :: rest ->
+    let ops = take_kops (arg_int n) rest in
+    let (k, res) = kc_run o_hash160 o_sha256 o_pub o_kfp o_derive kc_empty ops in
+    show_list show_kres res
+  | "kc_run_fresh", h :: n :: rest ->
+    (* the answer of a keychain rebuilt from the final contents of the history *)
+    let ops = take_kops (arg_int n) rest in
+    let (k, _) = kc_run o_hash160 o_sha256 o_pub o_kfp o_derive kc_empty ops in
+    show_kres (kc_fresh_get o_hash160 o_sha256 o_pub o_kfp o_derive k (arg_bytes h))
   | "sign_tx", tag :: forkid :: ht :: secrets :: p2sh :: idxs :: n :: rest ->
     let tag = arg_bytes tag in
     let db = build_hash160_lookup o_hash160 o_pub (arg_list arg_bytes secrets) in
